@@ -171,11 +171,21 @@ class Work(object):
                     cv.E2 = E2
                 else:
                     cv.maptype = "sswu"
-                    cv.u = M.find_u_sswu()
+                    # the non-square is read from the library and judged by the model: it must be a non-square with
+                    # g(b / (u a)) a square (otherwise the exceptional inputs have no image), and it should be the one
+                    # the documented rule selects
+                    cv.u = R.fp_get(S.vf_c13_ep_map_u())[0]
+                    ok = ctx.check(cv.u != 0 and not h2c.is_sqr(cv.u, p), "setup|%s|sswu-u-is-square" % name) and ok
+                    ctx.check(h2c.is_sqr(M.g(b * pow(cv.u * a, -1, p) % p), p), "setup|%s|sswu-u-invalid" % name,
+                              {"u": cv.u, "why": "g(b/(ua)) is not a square"})
+                    ctx.check(cv.u == M.find_u_sswu(), "setup|%s|sswu-u-rule" % name,
+                              {"library": cv.u, "documented_rule": M.find_u_sswu()})
             else:
                 cv.maptype = "svdw"
                 cv.u = M.find_u_svdw()
                 cv.svdwc = M.svdw_consts(cv.u)
+                lu = R.fp_get(S.vf_c13_ep_map_u())[0]
+                ok = ctx.check(lu == cv.u, "setup|%s|svdw-u-rule" % name, {"library": lu, "documented_rule": cv.u}) and ok
             # SwiftEC: defined by the source for a = 0, b != 0, p = 1 mod 3, not supersingular
             cv.swift_ok = (a == 0 and b != 0 and p % 3 == 1 and not cv.P["super"])
             if cv.swift_ok:
@@ -191,7 +201,8 @@ class Work(object):
 
     # model evaluation of the documented constructions ---------------------------------
     def map_one(self, cv, t):
-        """field element -> point of the curve (sign fixed, isogeny applied)"""
+        """field element -> point of the curve (sign fixed, isogeny applied); ArithmeticError when the map has no
+        image for t (only possible when the non-square of the parameter set is invalid)"""
         if cv.maptype == "sswu":
             return cv.M.sswu(t, cv.u)
         if cv.maptype == "sswu-iso":
@@ -311,7 +322,12 @@ class Work(object):
 
     def ep_rnd_case(self, cv, cls, t0, t1, extra_len=0):
         ctx, R, rng = self.ctx, self.R, self.rng
-        key = "ep_map_rnd|%s|%s" % (cv.name, cls)
+        # class computed from the field elements: which of them is an exceptional value of the map, how they relate
+        e0, e1 = t0 in cv.exc, t1 in cv.exc
+        ec = "exc-both" if (e0 and e1) else ("exc0" if e0 else ("exc1" if e1 else "reg"))
+        rel = "t1=t0" if t0 == t1 else ("t1=-t0" if (t0 + t1) % cv.p == 0 else
+                                        ("unit" if (t0 in (1, cv.p - 1) or t1 in (1, cv.p - 1)) else "gen"))
+        key = "ep_map_rnd|%s|%s|%s%s" % (cv.name, ec, rel, "|over-long" if extra_len else "")
         ub = self.solve_bytes(cv, t0, rng) + self.solve_bytes(cv, t1, rng) + bytes(rng.getrandbits(8) for _ in range(extra_len))
         if not ctx.begin(key, {"curve": cv.name, "t0": hx(t0), "t1": hx(t1), "bytes": ub.hex()}):
             return
@@ -321,7 +337,10 @@ class Work(object):
             res = R.call("ep_map_rnd", out, buf, len(ub))
             expected = None
             if cv.setup_ok and cv.heff is not None and R.L.ep_map_rnd_size() == 2 * cv.elm:
-                expected = [self.model_from_uniform(cv, ub)]
+                try:
+                    expected = [self.model_from_uniform(cv, ub)]
+                except ArithmeticError:
+                    expected = None     # no image under the configured non-square: (i) decides, an error is a violation
             self.ep_judge(cv, key, res, out, expected, crafted=True)
             ctx.check(R.get(buf, len(ub)) == ub, key + "|msg-modified")
         except MonitorViolation as e:
@@ -414,7 +433,7 @@ class Work(object):
                     idx += 1
                     if ctx.mine(idx):
                         self.ep_hash_case(cv, fn, gen_msg(rng, n))
-            for it in range(ctx.n(16, 600)):
+            for it in range(ctx.n(110, 2500)):
                 fn = rng.choice(fl)
                 self.ep_hash_case(cv, fn, gen_msg(rng, rng.choice(LENS + [rng.randrange(0, 200)] * 6)))
             # ---- the direct entry point
@@ -425,6 +444,7 @@ class Work(object):
                     exc = cv.M.sswu_exceptional(cv.u)
                 else:
                     exc = cv.E2.sswu_exceptional(cv.u)
+                cv.exc = set(exc)
                 self.info.setdefault("exceptional_field_elements", {})[nm] = len(exc)
                 rt = lambda: rng.randrange(p)
                 directed = [("t0=0", 0, rt()), ("t1=0", rt(), 0), ("both0", 0, 0), ("t=1", 1, rt()), ("t=-1", p - 1, rt()),
@@ -445,7 +465,7 @@ class Work(object):
                 idx += 1
                 if ctx.mine(idx):
                     self.ep_rnd_short(cv)
-                for it in range(ctx.n(10, 400)):
+                for it in range(ctx.n(60, 1500)):
                     self.ep_rnd_case(cv, "uniform", rt(), rt())
             # ---- determinism
             others = [(n2, i2) for n2, i2 in ids if n2 != nm]
@@ -453,6 +473,360 @@ class Work(object):
                 idx += 1
                 if ctx.mine(idx):
                     self.ep_determinism(cv, fn, gen_msg(rng, rng.choice([0, 5, 64, 130])), others)
+            ctx.add("curves_instantiated", 1)
+
+    # ================================================================= curves over Fp2 (G2 of the pairing sets)
+    def ep2_read(self, F2, ptr):
+        R, K = self.R, self.K
+        x, cx = R.fpx_get(ptr + K["off_ep2_st_x"], 2)
+        y, cy = R.fpx_get(ptr + K["off_ep2_st_y"], 2)
+        z, cz = R.fpx_get(ptr + K["off_ep2_st_z"], 2)
+        co = R.rd_int(ptr + K["off_ep2_st_coord"])
+        return tuple(x), tuple(y), tuple(z), co, (cx and cy and cz)
+
+    def epx_setup(self, name):
+        ctx, R = self.ctx, self.R
+        P = R.pairing_set(name)
+        tw = type("Tw", (), {})()
+        tw.name = name
+        tw.p = P["p"]
+        tw.n = P["n"]
+        F = PrimeField(tw.p)
+        qnr = R.L.fp_prime_get_qnr()
+        tw.F2 = Ext(F, 2, qnr % tw.p)
+        for f in ("ep2_curve_get_a", "ep2_curve_get_b"):
+            getattr(R.L, f).restype = ctypes.c_void_p
+        tw.a = tuple(R.fpx_get(R.L.ep2_curve_get_a(), 2)[0])
+        tw.b = tuple(R.fpx_get(R.L.ep2_curve_get_b(), 2)[0])
+        tw.C = WCurve(tw.F2, tw.a, tw.b, tw.n)
+        nb = R.bn_new()
+        R.call("ep2_curve_get_ord", nb)
+        tw.r = R.bn_val(nb)
+        R.bn_free(nb)
+        tw.ok = True
+        if ctx.begin("setup|ep2|" + name, {"curve": name}, nontrivial=False):
+            try:
+                g = R.mem(self.K["sizeof_ep2_st"], 0x33)
+                R.call("ep2_curve_get_gen", g)
+                x, y, z, co, can = self.ep2_read(tw.F2, g)
+                R.free(g)
+                G = (x, y)
+                good = (tw.r == tw.n and z == tw.F2.one and not tw.F2.is_zero(tw.b)
+                        and not F.is_sqr(qnr % tw.p) and tw.C.on_curve(G) and tw.C.mul(tw.r, G) is None)
+                tw.ok = ctx.check(good, "setup|ep2|%s|twist-generator" % name,
+                                  {"why": "model: u^2 = qnr irreducible, G2 on the twist, [r]G2 = O"})
+            finally:
+                ctx.end()
+        return tw
+
+    def ep2_hash_case(self, tw, fn, msg, extra=None):
+        ctx, R = self.ctx, self.R
+        base = fn if fn not in ("ep2_map", "g2_map") else fn + "=" + R.target(fn)
+        key = "%s|%s|%s%s" % (base, tw.name, lencls(len(msg)), extra or "")
+        if not ctx.begin(key, {"curve": tw.name, "msg": msg.hex() if len(msg) <= 80 else msg[:80].hex() + "...",
+                               "len": len(msg)}):
+            return "skipped"
+        buf = R.put(msg)
+        out = R.mem(self.K["sizeof_ep2_st"], self.rng.randrange(1, 256))
+        try:
+            res = R.call(fn, out, buf, len(msg))
+            st = self.verdicts.setdefault((fn, tw.name), [0, 0])
+            if res.caught:
+                # a map that is not defined for a configuration must refuse it consistently (judged per curve)
+                st[0] += 1
+                ctx.ok()
+                return "error"
+            st[1] += 1
+            x, y, z, co, can = self.ep2_read(tw.F2, out)
+            F2 = tw.F2
+            ctx.check(can, key + "|normal-form", {"why": "non-canonical digits"})
+            if F2.is_zero(z):
+                ctx.check(False, key + "|trivial")
+                return None
+            if not ctx.check(z == F2.one and co == self.K["BASIC"], key + "|normal-form", {"coord": co}):
+                return "error"
+            Q = (x, y)
+            if ctx.check(tw.C.on_curve(Q), key + "|on-curve"):
+                ctx.check(tw.C.mul(tw.r, Q) is None, key + "|order")
+            ctx.check(R.get(buf, len(msg)) == msg, key + "|msg-modified")
+            return Q
+        except MonitorViolation as e:
+            ctx.fail(key + "|" + e.kind, e.detail)
+            return "error"
+        finally:
+            ctx.end()
+            R.free(buf)
+            R.free(out)
+
+    def consistent_rejection(self, what):
+        """an entry point may refuse a configuration, but then for every message"""
+        ctx = self.ctx
+        for (fn, cname), (rej, acc) in sorted(self.verdicts.items()):
+            if rej:
+                self.info.setdefault("rejected_configurations", [])
+                self.info["rejected_configurations"].append("%s on %s (%d messages)" % (fn, cname, rej))
+            if rej and acc and ctx.begin("%s|%s|rejection-consistency" % (fn, cname), {"rejected": rej, "accepted": acc},
+                                         nontrivial=False):
+                ctx.check(False, "%s|%s|unexpected-error" % (fn, cname), {"rejected": rej, "accepted": acc})
+                ctx.end()
+        self.verdicts = {}
+
+    def det3(self, hash_case, key, desc, reactivate, churn):
+        """determinism oracle shared by the non-prime parts: repeat, parameter churn, fresh context"""
+        ctx, R = self.ctx, self.R
+        first = hash_case("|det-first")
+        if first in ("skipped", "error"):
+            return
+        for label, prep in (("repeat", None), ("churn", churn), ("fresh-context", "fresh")):
+            leave = None
+            if prep == "fresh":
+                leave = self.fresh_context()
+                try:
+                    reactivate()
+                    got = hash_case("|det-" + label)
+                finally:
+                    leave()
+                    R.fp_setup()
+            else:
+                if prep is not None:
+                    prep()
+                    reactivate()
+                got = hash_case("|det-" + label)
+            if got not in ("skipped", "error") and ctx.begin(key + "|determinism|" + label, desc):
+                ctx.check(got == first, key + "|determinism|" + label, {"first": repr(first)[:300], "then": repr(got)[:300]})
+                ctx.end()
+
+    def part_epx(self):
+        ctx, R, rng = self.ctx, self.R, self.rng
+        names = R.pairing_names()
+        ctx.note("parameter_sets", names)
+        fns = [f for f in ("ep2_map", "ep2_map_basic", "ep2_map_sswum", "ep2_map_swift", "g2_map") if self.has(f)]
+        for f in ("ep2_map_dst", "ep2_map_rnd"):
+            self.has(f)
+        idx = 0
+        self.verdicts = {}
+        for name in names:
+            tw = self.epx_setup(name)
+            if not tw.ok:
+                continue
+            for n in LENS:
+                for fn in fns:
+                    idx += 1
+                    if ctx.mine(idx):
+                        self.ep2_hash_case(tw, fn, gen_msg(rng, n))
+            for it in range(ctx.n(150, 3000)):
+                self.ep2_hash_case(tw, rng.choice(fns), gen_msg(rng, rng.choice(LENS + [rng.randrange(0, 200)] * 6)))
+            others = [x for x in names if x != name]
+            for fn in fns:
+                idx += 1
+                if ctx.mine(idx):
+                    msg = gen_msg(rng, rng.choice([0, 5, 64, 130]))
+                    other = rng.choice(others) if others else None
+
+                    def churn():
+                        if other:
+                            R.pairing_set(other)
+                            b = R.put(msg)
+                            t = R.mem(self.K["sizeof_ep2_st"], 0)
+                            R.call(fn, t, b, len(msg))
+                            R.free(b)
+                            R.free(t)
+                    self.det3(lambda extra: self.ep2_hash_case(tw, fn, msg, extra), "%s|%s" % (fn, name),
+                              {"curve": name, "msg": msg.hex()[:160]}, lambda: R.pairing_set(name), churn)
+            self.consistent_rejection("ep2")
+            ctx.add("curves_instantiated", 1)
+
+    # ================================================================= binary curves
+    def part_eb(self):
+        ctx, R, rng = self.ctx, self.R, self.rng
+        K = self.K
+        if not self.has("eb_map"):
+            return
+        L = R.L
+        for f in ("fb_poly_get", "eb_curve_get_a", "eb_curve_get_b"):
+            getattr(L, f).restype = ctypes.c_void_p
+        ids = []
+        for nm, v in R.EH.get("relic_eb.h", {}).items():
+            r = R.call("eb_param_set", v)
+            if not r.caught and L.eb_param_get() == v:
+                ids.append((nm, v))
+        ctx.note("parameter_sets", [n for n, _ in ids])
+        nb = K["RLC_FB_DIGS"] * R.DB
+        rdfb = lambda ptr: int.from_bytes(ctypes.string_at(ptr, nb), "little")
+        SZ = K["sizeof_eb_st"]
+        idx = 0
+        for nm, ident in ids:
+            R.call("eb_param_set", ident)
+            f = rdfb(L.fb_poly_get())
+            a, b = rdfb(L.eb_curve_get_a()), rdfb(L.eb_curve_get_b())
+            ordn = R.bn_new()
+            R.call("eb_curve_get_ord", ordn)
+            nval = R.bn_val(ordn)
+            self.info.setdefault("binary_fields", {})[nm] = "m=%d order_bits=%d" % (f.bit_length() - 1, nval.bit_length())
+
+            def hash_case(msg, extra=None):
+                key = "eb_map|%s|%s%s" % (nm, lencls(len(msg)), extra or "")
+                if not ctx.begin(key, {"curve": nm, "msg": msg.hex()[:160], "len": len(msg)}):
+                    return "skipped"
+                buf = R.put(msg)
+                out = R.mem(SZ, rng.randrange(1, 256))
+                tmp = R.mem(SZ, 0x11)
+                try:
+                    res = R.call("eb_map", out, buf, len(msg))
+                    if res.caught:
+                        ctx.check(False, key + "|unexpected-error", {"err": res.err})
+                        return "error"
+                    x, y, z = (rdfb(out + K["off_eb_st_" + c]) for c in "xyz")
+                    co = R.rd_int(out + K["off_eb_st_coord"])
+                    if not ctx.check(z != 0, key + "|trivial"):
+                        return None
+                    if not ctx.check(z == 1 and co == K["BASIC"], key + "|normal-form", {"coord": co, "z": hx(z)}):
+                        return "error"
+                    ctx.check(max(x, y).bit_length() <= f.bit_length() - 1, key + "|normal-form", {"why": "degree >= m"})
+                    ctx.check(h2c.bin_on_curve(x, y, a, b, f), key + "|on-curve", {"x": hx(x), "y": hx(y)})
+                    # order through the library's own multiplication (C16 monitors it)
+                    r2 = R.call("eb_mul", tmp, out, ordn)
+                    ctx.check(not r2.caught and R.call("eb_is_infty", tmp).i == 1, key + "|order")
+                    ctx.check(R.call("eb_on_curve", out).i == 1, key + "|on-curve", {"by": "eb_on_curve"})
+                    ctx.check(R.get(buf, len(msg)) == msg, key + "|msg-modified")
+                    return (x, y)
+                except MonitorViolation as e:
+                    ctx.fail(key + "|" + e.kind, e.detail)
+                    return "error"
+                finally:
+                    ctx.end()
+                    R.free(buf)
+                    R.free(out)
+                    R.free(tmp)
+            for n in LENS:
+                idx += 1
+                if ctx.mine(idx):
+                    hash_case(gen_msg(rng, n))
+            for it in range(ctx.n(700, 12000)):
+                hash_case(gen_msg(rng, rng.choice(LENS + [rng.randrange(0, 200)] * 6)))
+            others = [i2 for n2, i2 in ids if n2 != nm]
+            for it in range(2):
+                msg = gen_msg(rng, rng.choice([0, 5, 64, 130]))
+                other = rng.choice(others) if others else None
+
+                def churn():
+                    if other is not None:
+                        R.call("eb_param_set", other)
+                        bb = R.put(msg)
+                        t = R.mem(SZ, 0)
+                        R.call("eb_map", t, bb, len(msg))
+                        R.free(bb)
+                        R.free(t)
+                self.det3(lambda extra: hash_case(msg, extra), "eb_map|%s" % nm, {"curve": nm, "msg": msg.hex()[:160]},
+                          lambda: R.call("eb_param_set", ident), churn)
+            R.bn_free(ordn)
+            ctx.add("curves_instantiated", 1)
+
+    # ================================================================= Edwards
+    def part_ed(self):
+        ctx, R, rng = self.ctx, self.R, self.rng
+        K = self.K
+        if not self.has("ed_map"):
+            return
+        L = R.L
+        ids = []
+        for nm, v in R.EH.get("relic_ed.h", {}).items():
+            r = R.call("ed_param_set", v)
+            if not r.caught and L.ed_param_get() == v:
+                ids.append((nm, v))
+        ctx.note("parameter_sets", [n for n, _ in ids])
+        E = h2c.Ed25519Model()
+        SZ = K["sizeof_ed_st"]
+        fns = [f for f in ("ed_map", "ed_map_dst") if self.has(f)]
+        idx = 0
+        for nm, ident in ids:
+            R.call("ed_param_set", ident)
+            R.fp_setup()
+            if nm != "CURVE_ED25519" or R.p != E.p:
+                self.info.setdefault("not_modelled", []).append(nm)
+                continue
+            Lb = (K["FP_PRIME"] + L.ed_param_level() + 7) // 8
+            self.info["ed_bytes_per_element"] = Lb
+            nb = R.bn_new()
+            R.call("ed_curve_get_ord", nb)
+            if ctx.begin("setup|ed|" + nm, {"curve": nm}, nontrivial=False):
+                ctx.check(R.bn_val(nb) == E.r, "setup|ed|%s|order" % nm)
+                ctx.end()
+            R.bn_free(nb)
+
+            def hash_case(fn, msg, dst, extra=None):
+                dcl = "" if fn == "ed_map" else ("|dst0" if len(dst) == 0 else ("|dst255" if len(dst) == 255 else "|dst"))
+                key = "%s|%s|%s%s%s" % (fn, nm, lencls(len(msg)), dcl, extra or "")
+                if not ctx.begin(key, {"curve": nm, "msg": msg.hex()[:160], "len": len(msg),
+                                       "dst": dst.hex()[:80] if fn != "ed_map" else None}):
+                    return "skipped"
+                buf = R.put(msg)
+                dbuf = R.put(dst)
+                out = R.mem(SZ, rng.randrange(1, 256))
+                try:
+                    if fn == "ed_map":
+                        res = R.call(fn, out, buf, len(msg))
+                        d = h2c.DST
+                    else:
+                        res = R.call(fn, out, buf, len(msg), dbuf, len(dst))
+                        d = dst
+                    if res.caught:
+                        ctx.check(False, key + "|unexpected-error", {"err": res.err})
+                        return "error"
+                    x, cx = R.fp_get(out + K["off_ed_st_x"])
+                    y, cy = R.fp_get(out + K["off_ed_st_y"])
+                    z, cz = R.fp_get(out + K["off_ed_st_z"])
+                    t, ct = R.fp_get(out + K["off_ed_st_t"])
+                    if not ctx.check(z == 1 and cx and cy and cz, key + "|normal-form", {"z": hx(z)}):
+                        return "error"
+                    if "EXTND" in R.target("ed_add").upper():
+                        ctx.check(t == x * y % E.p and ct, key + "|normal-form", {"why": "t != x*y"})
+                    Q = (x, y)
+                    ctx.check(Q != (0, 1), key + "|trivial")
+                    if ctx.check(E.on_curve(Q), key + "|on-curve", {"x": hx(x), "y": hx(y)}):
+                        ctx.check(E.mul(E.r, Q) == (0, 1), key + "|order")
+                    exp = E.hash_to_curve(msg, d, Lb)
+                    ctx.check(Q == exp, key + "|construction", {"got": [hx(x), hx(y)], "model": [hx(exp[0]), hx(exp[1])]})
+                    ctx.check(R.get(buf, len(msg)) == msg and R.get(dbuf, len(dst)) == dst, key + "|msg-modified")
+                    return Q
+                except MonitorViolation as e:
+                    ctx.fail(key + "|" + e.kind, e.detail)
+                    return "error"
+                finally:
+                    ctx.end()
+                    R.free(buf)
+                    R.free(dbuf)
+                    R.free(out)
+
+            def gen_dst():
+                c = rng.randrange(6)
+                if c == 0:
+                    return b""
+                if c == 1:
+                    return bytes(rng.getrandbits(8) for _ in range(255))
+                if c == 2:
+                    return h2c.DST
+                return bytes(rng.getrandbits(8) for _ in range(rng.randrange(1, 64)))
+            for n in LENS:
+                for fn in fns:
+                    idx += 1
+                    if ctx.mine(idx):
+                        hash_case(fn, gen_msg(rng, n), gen_dst())
+            for it in range(ctx.n(900, 16000)):
+                hash_case(rng.choice(fns), gen_msg(rng, rng.choice(LENS + [rng.randrange(0, 200)] * 6)), gen_dst())
+            others = [i2 for n2, i2 in ids if n2 != nm]
+            for fn in fns:
+                msg = gen_msg(rng, rng.choice([0, 5, 64, 130]))
+                dst = gen_dst()
+                other = rng.choice(others) if others else None
+
+                def churn():
+                    if other is not None:
+                        R.call("ed_param_set", other)
+                        R.fp_setup()
+                self.det3(lambda extra: hash_case(fn, msg, dst, extra), "%s|%s" % (fn, nm),
+                          {"curve": nm, "msg": msg.hex()[:160]},
+                          lambda: (R.call("ed_param_set", ident), R.fp_setup()), churn)
             ctx.add("curves_instantiated", 1)
 
 
